@@ -7,7 +7,7 @@ state change, in program order (the simulator is single-threaded).
 import math
 import random
 
-from .book_session import PLURAL_ACCESSORS, SINGLE_ACCESSORS, current_row, history_rows, snap_market
+from .book_session import PLURAL_ACCESSORS, SINGLE_ACCESSORS, current_row, history_rows, snap_market, times_argument
 from .common import BADPX, NOPX, MachineryError, Units, import_pams
 
 import_pams()
@@ -76,8 +76,11 @@ class Recorder:
     def cash_units(self, x):
         if self.exact:
             k = round(x / CASH_UNIT)
-            if k * CASH_UNIT != x or abs(k) >= 2 ** 31:
-                raise MachineryError("cash %r not projectable" % (x,))
+            if k * CASH_UNIT != x or abs(k) >= 2 ** 31 - 2:
+                # a cash amount off the exact grid cannot come from folding exact fills: the trace specification sees a value
+                # no fold produces (and says so), the harness does not fail
+                self.cash_soft_err += 1
+                return -(2 ** 31) + 1
             return int(k)
         return 0
 
@@ -511,7 +514,7 @@ class ScriptMixin:
         t = m.get_time() + r.choice([1, 1, 2, 0])
         try:
             if acc in PLURAL_ACCESSORS:
-                getattr(m, acc)([0, t] if r.random() < 0.5 else [t])
+                getattr(m, acc)(times_argument(t, r.randrange(6), r.random() < 0.5))
             else:
                 getattr(m, acc)(t)
             res = "value"
@@ -546,6 +549,8 @@ class ScriptMixin:
             px = max(1, lvl) * tick
             if r.random() < p["pOff"]:
                 px += tick / 2
+            if p.get("penny") and lvl <= 0:
+                px = tick / 2           # positive, below one tick: a bid is accepted at price 0, which is a price
             if float(px).is_integer() and r.random() < p.get("pInt", 0.25):
                 px = int(px)            # an integral price handed over as a Python int is the same price
             o = Order(agent_id=self.agent_id, market_id=m.market_id, is_buy=r.random() < 0.5,
@@ -591,6 +596,8 @@ class ProbeEvent(EventABC):
     settings["hooks"] = [[type, is_before, times|None, filter], ...]; filter "" | "class:Market" |
     "class:IndexMarket" | "inst:<market name>".  settings["bump"] = n: a before-order hook raises the
     price of the pending limit order by n ticks (before hooks may alter a pending order)."""
+
+    hook_specs, bump, dup, dupreg = [], 0, False, None      # (a runner that asks for the hooks before setup gets none)
 
     def setup(self, settings, *args, **kwargs):
         super().setup(settings, *args, **kwargs)
